@@ -645,6 +645,10 @@ func c12Run(c *c12Case) {
 		opt = nil
 	}
 	relay := mocrelay.NewRelay(rec.handler(), opt)
+	if opt != nil {
+		// the option value stays the caller's: what happens to it after NewRelay is no business of the relay
+		*opt = mocrelay.RelayOption{MaxMessageLength: 1, RecvRateLimitRate: 0.001, RecvRateLimitBurst: 1}
+	}
 	var h http.Handler = relay
 	if c.Mux {
 		m := &mocrelay.ServeMux{Relay: relay}
